@@ -100,7 +100,19 @@ func (w *World) applyMisc(ds *Doc, op sim.Op, o *Obs) bool {
 	// ---- images: I[0..3] picture, I[4..7] config, F[0..3], S[0]=file name, S[1..2]=alt,title
 	case "img":
 		data, f, pw, ph := ImageOf(op)
-		info, err := d.AddImageFromData(data, op.Str(0), f, pw, ph, ImageConfigOf(op, 4, 0, 1))
+		cfg := ImageConfigOf(op, 4, 0, 1)
+		if op.Flt(4) == 1 && cfg != nil && cfg.Size != nil {
+			// the caller keeps ONE size object per distinct requested size and puts it into the configuration of every picture that
+			// wants that size (in this document or another one of this world): the library must treat it as read-only input
+			key := fmt.Sprintf("imgsize:%d|%v|%v", op.Int(4), op.Flt(0), op.Flt(1))
+			if sz, ok := w.Extra[key].(*document.ImageSize); ok {
+				cfg.Size = sz
+				w.Stats.Probe("image_size_object_reused")
+			} else {
+				w.Extra[key] = cfg.Size
+			}
+		}
+		info, err := d.AddImageFromData(data, op.Str(0), f, pw, ph, cfg)
 		o.Err = err
 		if err == nil {
 			ds.Images = append(ds.Images, info)
@@ -540,4 +552,11 @@ func sortedMap(m map[string]interface{}) string {
 		fmt.Fprintf(&b, "%s=%v,", k, m[k])
 	}
 	return b.String()
+}
+
+func minInt(a, b int) int {
+	if a < b {
+		return a
+	}
+	return b
 }
